@@ -32,6 +32,24 @@ func (tempErr) Timeout() bool   { return true }
 
 var ErrTemp error = tempErr{}
 
+// isAllErr is an adversarial error value: its Is method claims to match every target
+// (so errors.Is(err, anything) is true), which private sentinels compared with errors.Is
+// instead of == fall for.
+type isAllErr struct{}
+
+func (isAllErr) Error() string { return "simulated device: error that claims to be every error" }
+func (isAllErr) Is(error) bool { return true }
+
+type wrapIsAll struct{}
+
+func (wrapIsAll) Error() string {
+	return "simulated device: wrapped: error that claims to be every error"
+}
+func (wrapIsAll) Unwrap() error { return isAllErr{} }
+
+var ErrIsAll error = isAllErr{}
+var ErrWrapIsAll error = wrapIsAll{}
+
 func ErrOf(kind string) error {
 	switch kind {
 	case "":
@@ -52,6 +70,10 @@ func ErrOf(kind string) error {
 		return syscall.EAGAIN
 	case "eintr":
 		return syscall.EINTR
+	case "isall":
+		return ErrIsAll
+	case "wisall":
+		return ErrWrapIsAll
 	}
 	panic("dev: unknown error kind " + kind)
 }
